@@ -188,6 +188,8 @@ def suite_fonts(ctx, res, n):
     cases += [with_empty_and_twin(c) for c in cases[:max(3, n // 8)]]
     # one outline several times with one fill inside a group (equal sub-paints under different transforms)
     cases += [fontgen.make_group_copies_case(ctx.rng.getrandbits(32), ["glyf_colr_1", "cff_colr_1"][i % 2]) for i in range(max(4, n // 8))]
+    # a large shape under a gradient whose first stop is transparent decides the box (a layer is not invisible because its FIRST colour is)
+    cases += [fontgen.make_fade_gradient_case(ctx.rng.getrandbits(32), ["glyf_colr_1", "cff_colr_1", "cff2_colr_1"][i % 3]) for i in range(max(3, n // 10))]
     for case in cases:
         with BoundsRecorder() as rec:
             out = fontgen.build(case)
